@@ -304,6 +304,45 @@ SeqFresh == [][ (Stepped /\ Accepted) =>
     /\ \A i \in 1..Len(gen) : gen[i].key \notin DOMAIN st.kv
     /\ \A i, j \in 1..Len(gen) : i < j => gen[i].key # gen[j].key ]_mvars
 
+(* C17: the notification batch of a request names exactly the user keys it created, modified, deleted or *)
+(* range-deleted, with the resulting version ids; one entry per key (the last operation on it), never an  *)
+(* internal key; a request that changes nothing yields an empty batch                                     *)
+NfEntry(k, t, v, e) == [key |-> k, t |-> t, ver |-> v, end |-> e]
+NotifRule == [][ (Stepped /\ Accepted /\ Plain /\ ~Cur.kf) =>
+    LET nf == Cur.nf IN
+    /\ \A i \in 1..Len(nf) : ~Internal(nf[i].key)
+    /\ \A i, j \in 1..Len(nf) : i < j => KeyLt(nf[i].key, nf[j].key)
+    \* every entry is the trace of an operation of the request
+    /\ \A i \in 1..Len(nf) :
+          LET e == nf[i] IN
+          \/ /\ e.t \in {"KEY_CREATED", "KEY_MODIFIED"} /\ e.end = <<>>
+             /\ \E j \in 1..Len(Res.puts) :
+                   /\ Res.puts[j].st = "OK" /\ Res.puts[j].ver = e.ver
+                   /\ e.key = (IF Res.puts[j].key # <<>> THEN Res.puts[j].key ELSE Req.puts[j].key)
+                   /\ (e.t = "KEY_MODIFIED") = (Res.puts[j].mod > 0)
+             /\ (e.key \in DOMAIN st'.kv => st'.kv[e.key].ver = e.ver)
+          \/ /\ e.t = "KEY_DELETED" /\ e.ver = -1 /\ e.end = <<>>
+             /\ \E j \in 1..Len(Req.dels) : Req.dels[j].key = e.key /\ Res.dels[j] = "OK"
+          \/ /\ e.t = "KEY_RANGE_DELETED" /\ e.ver = -1
+             /\ \E j \in 1..Len(Req.rngs) : Req.rngs[j].s = e.key /\ Req.rngs[j].e = e.end
+    \* every operation that took effect on a user key left its trace (unless a later one replaced it)
+    /\ \A j \in 1..Len(Res.puts) :
+          LET k == IF Res.puts[j].key # <<>> THEN Res.puts[j].key ELSE Req.puts[j].key IN
+          (Res.puts[j].st = "OK" /\ ~Internal(k)) => \E i \in 1..Len(nf) : nf[i].key = k
+    /\ \A j \in 1..Len(Req.dels) :
+          (Res.dels[j] = "OK" /\ ~Internal(Req.dels[j].key)) => \E i \in 1..Len(nf) : nf[i].key = Req.dels[j].key /\ nf[i].t # "KEY_CREATED" /\ nf[i].t # "KEY_MODIFIED"
+    /\ \A j \in 1..Len(Req.rngs) :
+          ~Internal(Req.rngs[j].s) => \E i \in 1..Len(nf) : nf[i].key = Req.rngs[j].s /\ nf[i].t = "KEY_RANGE_DELETED"
+    \* a request made of one operation: exactly that entry, or none
+    /\ (Len(Req.puts) = 1 /\ Len(Req.dels) = 0 /\ Len(Req.rngs) = 0) =>
+          LET r == Res.puts[1]  k == IF r.key # <<>> THEN r.key ELSE Req.puts[1].key IN
+          nf = (IF r.st = "OK" /\ ~Internal(k)
+                THEN <<NfEntry(k, IF r.mod > 0 THEN "KEY_MODIFIED" ELSE "KEY_CREATED", r.ver, <<>>)>> ELSE <<>>)
+    /\ (Len(Req.puts) = 0 /\ Len(Req.dels) = 1 /\ Len(Req.rngs) = 0) =>
+          nf = (IF Res.dels[1] = "OK" /\ ~Internal(Req.dels[1].key) THEN <<NfEntry(Req.dels[1].key, "KEY_DELETED", -1, <<>>)>> ELSE <<>>)
+    /\ (Len(Req.puts) = 0 /\ Len(Req.dels) = 0 /\ Len(Req.rngs) = 1) =>
+          nf = (IF ~Internal(Req.rngs[1].s) THEN <<NfEntry(Req.rngs[1].s, "KEY_RANGE_DELETED", -1, Req.rngs[1].e)>> ELSE <<>>) ]_mvars
+
 ExportSteps == (Export = "steps") => PrintT(<<"STEP", ToJson(hist')>>)
 ExportRuns  == (Export = "runs" /\ nt = MaxReqs) => PrintT(<<"RUN", ToJson(hist)>>)
 =============================================================================
